@@ -137,7 +137,15 @@ theorem shift_lands_on_weekday (base naive : DT) (k : Int) (hv : base.Valid) (hk
     unfold DT.weekday
     rw [hordn, Cal.weekdayOfOrd_add]
 
-/-! ### the zone cascade, row by row, in priority order -/
+/-! ### the zone cascade, row by row, in priority order
+
+  (definitional) Every `tz_row_*` theorem below is `unfold buildTzaware / buildTzinfo; simp` with the earlier rows' conditions
+  negated in the hypotheses: the rows RESTATE the model's if-chain in the order of the property text.  They document
+  that the model's cascade is the documented one; they prove nothing the definition does not say.  All the force of
+  the zone-resolution clause is in the correspondence of `buildTzaware` with `_build_tzaware` (parser.tzcascade /
+  parser.parse ops on every run).  Theorems with content in this file: `build_naive_spec`, `shift_lands_on_weekday`,
+  `assign_fold_spec` / `local_utc_replacement`, `gmt_sign_flip`, `fuzzy_extends_strict_partial`,
+  `atMostOneAmPm_of_count`, `fuzzy_tokens_in_order`. -/
 
 /-- row 1: a callable `tzinfos`, or a mapping that has the name, decides — whatever else the text said -/
 theorem tz_row_tzinfos (tznames : List Token) (tzi : TzInfos) (res : Res) (h : tzi.applies res.tzname = true) :
@@ -148,10 +156,16 @@ theorem tz_row_tzinfos (tznames : List Token) (tzi : TzInfos) (res : Res) (h : t
 theorem tz_row_tzinfos_object (es : List (Option Token × TzData)) (n : Option Token) (off : Option Int) (k : Nat)
     (h : lookupKey es n = some (.obj k)) : buildTzinfo (.mapping es) n off = .ok (.viaTzinfos (.obj k) n) := by
   unfold buildTzinfo; simp [h, pure, Except.pure, bind, Except.bind]
-/-- … a string becomes `tz.tzstr(text)` -/
+/-- … a string becomes `tz.tzstr(text)` — when `tz.tzstr` accepts it (C08's model of the TZ-string parser) -/
 theorem tz_row_tzinfos_string (es : List (Option Token × TzData)) (n : Option Token) (off : Option Int) (s : Token)
-    (h : lookupKey es n = some (.str s)) : buildTzinfo (.mapping es) n off = .ok (.viaTzinfos (.str s) n) := by
-  unfold buildTzinfo; simp [h, pure, Except.pure, bind, Except.bind]
+    (h : lookupKey es n = some (.str s)) (hs : tzstrCtor s = .ok ()) :
+    buildTzinfo (.mapping es) n off = .ok (.viaTzinfos (.str s) n) := by
+  unfold buildTzinfo; simp [h, hs, pure, Except.pure, bind, Except.bind]
+/-- … and `tz.tzstr`'s own exception (ValueError for a malformed TZ string) escapes as it is: `parse` does not wrap it -/
+theorem tz_row_tzinfos_bad_string (es : List (Option Token × TzData)) (n : Option Token) (off : Option Int) (s : Token)
+    (e : PyErr) (h : lookupKey es n = some (.str s)) (hs : tzstrCtor s = .error e) :
+    buildTzinfo (.mapping es) n off = .error e := by
+  unfold buildTzinfo; simp [h, hs, bind, Except.bind]
 /-- … an integer becomes `tz.tzoffset(name, seconds)` -/
 theorem tz_row_tzinfos_int (es : List (Option Token × TzData)) (n : Option Token) (off : Option Int) (k : Int)
     (h : lookupKey es n = some (.int k)) (hk : offsetOk k = true) :
@@ -164,6 +178,24 @@ theorem tz_row_tzinfos_none (es : List (Option Token × TzData)) (n : Option Tok
 /-- … anything else is the documented TypeError -/
 theorem tz_row_tzinfos_bad (es : List (Option Token × TzData)) (n : Option Token) (off : Option Int)
     (h : lookupKey es n = some .bad) : buildTzinfo (.mapping es) n off = .error .TypeError := by
+  unfold buildTzinfo; simp [h, bind, Except.bind, throw, throwThe, MonadExceptOf.throw]
+/-- … a callable decides for EVERY name, also one the text does not carry (`tzinfos(None, None)`), with the same value
+    kinds; `es` = the names it answers specially, `d` = its answer for all others -/
+theorem tz_row_callable_always (tznames : List Token) (es : List (Option Token × TzData)) (d : TzDflt) (res : Res) :
+    buildTzaware tznames (.callable es d) res = buildTzinfo (.callable es d) res.tzname res.tzoffset := by
+  unfold buildTzaware; simp [TzInfos.applies]
+theorem tz_row_callable_object (es : List (Option Token × TzData)) (d : TzDflt) (n : Option Token) (off : Option Int) (k : Nat)
+    (h : lookupKey es n = some (.obj k)) : buildTzinfo (.callable es d) n off = .ok (.viaTzinfos (.obj k) n) := by
+  unfold buildTzinfo; simp [h, pure, Except.pure, bind, Except.bind]
+theorem tz_row_callable_default_none (es : List (Option Token × TzData)) (n : Option Token) (off : Option Int)
+    (h : lookupKey es n = none) : buildTzinfo (.callable es (.data .noneVal)) n off = .ok (.viaTzinfos .noneVal n) := by
+  unfold buildTzinfo; simp [h, pure, Except.pure, bind, Except.bind]
+theorem tz_row_callable_default_int (es : List (Option Token × TzData)) (n : Option Token) (off : Option Int) (k : Int)
+    (h : lookupKey es n = none) (hk : offsetOk k = true) :
+    buildTzinfo (.callable es (.data (.int k))) n off = .ok (.fixed n k) := by
+  unfold buildTzinfo; simp [h, fixedZone, hk, bind, Except.bind]
+theorem tz_row_callable_bad (es : List (Option Token × TzData)) (n : Option Token) (off : Option Int)
+    (h : lookupKey es n = none) : buildTzinfo (.callable es (.data .bad)) n off = .error .TypeError := by
   unfold buildTzinfo; simp [h, bind, Except.bind, throw, throwThe, MonadExceptOf.throw]
 /-- … and a callable is asked with `(tzname, tzoffset)` -/
 theorem tz_row_tzinfos_callable_offset (n : Option Token) (k : Int) (hk : offsetOk k = true) :
@@ -300,6 +332,59 @@ theorem ignoretz_same_wall (cls : Char → CClass) (info : Info) (o : Opts) (tzn
             rfl
 
 /-! ### fuzzy -/
+
+/-- `_recombine_skipped`'s loop: whatever the merging of adjacent tokens does, the characters that come back are the
+    tokens at the given indices, in the order given, nothing lost and nothing added -/
+theorem go_flatten (tokens : List Token) (skipped : List Nat) :
+    ∀ (rest : List Nat) (i : Nat) (acc r : List Token),
+      recombineSkipped.go tokens skipped rest i acc = .ok r →
+      r.flatten = acc.flatten ++ (rest.filterMap (tokens[·]?)).flatten := by
+  intro rest
+  induction rest with
+  | nil =>
+    intro i acc r h
+    simp only [recombineSkipped.go] at h
+    injection h with h
+    simp [h]
+  | cons idx rest ih =>
+    intro i acc r h
+    simp only [recombineSkipped.go, bind, Except.bind] at h
+    cases ht : tokAt tokens idx with
+    | error e => simp [ht] at h
+    | ok t =>
+      have hget : tokens[idx]? = some t := by
+        unfold tokAt at ht
+        cases hg : tokens[idx]? with
+        | none => simp [hg] at ht
+        | some x => simp [hg] at ht; rw [ht]
+      simp only [ht] at h
+      split at h
+      · split at h
+        · rename_i last revInit hrev
+          have := ih _ _ _ h
+          rw [this]
+          have hacc : acc = revInit.reverse ++ [last] := by
+            have := congrArg List.reverse hrev
+            simpa using this
+          simp [hacc, hget, List.flatten_append]
+        · simp at h
+      · have := ih _ _ _ h
+        rw [this]
+        simp [hget, List.flatten_append]
+
+/-- **fuzzy_with_tokens returns the skipped text in order**: the returned strings, read one after the other, are exactly
+    the skipped tokens in ASCENDING token index (= text order: `_recombine_skipped` sorts the indices), each once —
+    adjacent skipped tokens are only glued together, never reordered, dropped or repeated -/
+theorem fuzzy_tokens_in_order (tokens : List Token) (skipped : List Nat) (r : List Token)
+    (h : recombineSkipped tokens skipped = .ok r) :
+    r.flatten = ((skipped.mergeSort (· ≤ ·)).filterMap (tokens[·]?)).flatten ∧
+    (skipped.mergeSort (· ≤ ·)).Pairwise (· ≤ ·) := by
+  refine ⟨?_, ?_⟩
+  · unfold recombineSkipped at h
+    simpa using go_flatten tokens skipped _ 0 [] r h
+  · have := List.pairwise_mergeSort (le := fun a b : Nat => decide (a ≤ b))
+      (by intro a b c; simp; omega) (by intro a b; simp; omega) skipped
+    simpa using this
 
 /-- **fuzzy_with_tokens returns the same datetime as fuzzy** (and the same zone) -/
 theorem fuzzy_tokens_same_dt (cls : Char → CClass) (info : Info) (o : Opts) (tznames : List Token) (tzi : TzInfos)
